@@ -56,6 +56,38 @@ CLAIMED = {
          "numpy oracle computed from the channel action. Kraus extraction is proved only up to the eigh contract (kraus_roundtrip_partial); "
          "float rounding is not modelled.",
     design="§4 C02, §9", technique="Lean 4 proof over a star-ring model + model/implementation correspondence on complete bases + channel-action oracle"),
+ "C01": dict(
+    text="Proved (rationals, all sizes): verdict <=> defect <= atol for every call site whose relative tolerance, REGENERATED FROM THE SOURCE on "
+         "every run, is 0 (gate TP first row; eigenvalue test <=> all eigenvalues >= -atol); for State.is_trace_one / Povm.is_identity_sum "
+         "exactness <=> generated rtol = 0, with a negation witness for numpy's default 1e-5; monotonicity in atol of every sub-verdict; "
+         "physical = eq and ineq; constructor raises iff required and not physical; gate / mprocess origin objects trace preserving for all d, m. "
+         "Not proved: eigenvalue list <-> PosSemidef(M + atol), relation of the two TP branches, float eigvalsh accuracy (inputs keep >= 10 atol "
+         "margins). Correspondence and oracle over 4 types, 5 bases incl. unnormalised and non-identity-first Hermitian bases, atol 1e-13..1e-2.",
+    design="§4 C01, §9", technique="Lean 4 proof over verdict wiring with tolerances regenerated from source (ast translator) + correspondence + margin oracle"),
+ "C03": dict(
+    text="Proved for all d >= 1, m, both flags and arbitrary values: the var<->object index maps REGENERATED FROM THE PYTHON SOURCE (ast->Lean) are "
+         "mutually inverse bijections between [0, num_variables) and the non-implied entries and point at the entry holding the variable (all "
+         "four types); var->object->var, stacked<->var consistency and len(var) = generated num_variables (all four types); object->var->object "
+         "<=> built-in constraint (state, gate, POVM); SetQOperations total<->local bijection for arbitrary mixes. Tied to the code by exhaustive "
+         "comparison over every variable index of every configuration (4 types x 2 flags x m in 2..5 x 1-qubit/qutrit/2-qubit) and mixed sets. "
+         "Not proved: mprocess object->var->object iff-form, gradient one-hot (checked exhaustively on the real code).",
+    design="§4 C03, §9", technique="Lean 4 proof over index maps regenerated from source + list-level model of insert/delete/reshape + exhaustive correspondence"),
+ "C14": dict(
+    text="Lean-checked for all lengths on an exact-rational model: the cumulative-sum inversion maps u to the outcome whose interval contains it, "
+         "data are in range with non-zero probability when u < sum p (residual branch explicit); calc_empi_dist_sequence returns exactly "
+         "counts(data[:n])/n per requested n — non-negative, sum 1, cumulatively consistent; an int seed gives a function of (seed, args) with "
+         "the global store untouched; one generator yields consecutive stream segments; None uses the global state (abstract deterministic PRNG). "
+         "Tied to the code by exact comparison on the real generator's uniforms and a reference-stream oracle on 22 entry points. Distribution of "
+         "MT19937/multinomial trusted (fixed-bound frequency test, labelled a test).",
+    design="§4 C14, §9", technique="Lean 4 proof (list induction; abstract PRNG state machine) + exact correspondence on real uniforms + stream-discipline oracle"),
+ "C20": dict(
+    text="Lean-checked for all numbers/lengths of schedules and list sizes on a model whose tables and positional specs are REGENERATED FROM THE "
+         "SOURCE each run (skeleton-matching ast translator): validation accepts exactly the well-formed schedules, also after any setter history "
+         "(invariant by induction over operation lists); rejections carry the right error class and position; Qst/Povmt/Qpt accept exactly their "
+         "shape (Qmpt: exact accepted language; shape clause partial, see known finding); accepted schedules ending in their only POVM execute. "
+         "Tied to the code by exhaustive comparison (81 list-size configurations, length <= 4, thorough 5; 1.4M cases quick) and an independent "
+         "rule oracle with a Born-rule reference.",
+    design="§4 C20, §9", technique="Lean 4 proof (decision logic stated outright, setter invariant by induction) + ast-regenerated tables + exhaustive correspondence"),
 }
 PENDING_REASON = "check not built yet in this round (build order in DESIGN.md §8); not claimed until its Lean model, theorems and correspondence exist"
 
